@@ -798,6 +798,142 @@ Proof. vm_compute. repeat split; reflexivity. Qed.
 Example ex_defuse : defuse false [27;91;49;59;50;72;120; 27;91;51;49;109; 27;65] = [27;91;49;59;50;115;120; 27;91;51;49;109; 27;115].
 Proof. vm_compute. reflexivity. Qed.
 
+(* ------------------------------------------------------------------ no submitted line is dropped, whatever the number of lines *)
+Lemma process_lines_kept ls : process_lines ls = flat_map process_line (kept_lines ls).
+Proof.
+  induction ls as [|l r IH]; [reflexivity|].
+  destruct r as [|l2 r'].
+  - destruct l; cbn [process_lines kept_lines flat_map]; [reflexivity|rewrite app_nil_r; reflexivity].
+  - change (process_lines (l :: l2 :: r')) with (process_line l ++ process_lines (l2 :: r')).
+    change (kept_lines (l :: l2 :: r')) with (l :: kept_lines (l2 :: r')).
+    cbn [flat_map]. rewrite IH. reflexivity.
+Qed.
+
+(* kept_lines = all the lines but an empty last one *)
+Lemma kept_lines_spec ls : if ends_empty ls then ls = kept_lines ls ++ [[]] else kept_lines ls = ls.
+Proof.
+  induction ls as [|l r IH]; [reflexivity|].
+  destruct r as [|l2 r'].
+  - destruct l; reflexivity.
+  - change (ends_empty (l :: l2 :: r')) with (ends_empty (l2 :: r')).
+    change (kept_lines (l :: l2 :: r')) with (l :: kept_lines (l2 :: r')).
+    destruct (ends_empty (l2 :: r')); cbn [app]; [rewrite <- IH|rewrite IH]; reflexivity.
+Qed.
+
+Lemma ends_empty_spec ls : ends_empty ls = true <-> exists ls', ls = ls' ++ [[]].
+Proof.
+  split.
+  - intros E. pose proof (kept_lines_spec ls) as K. rewrite E in K. exists (kept_lines ls). exact K.
+  - intros (ls' & ->). induction ls' as [|l r IH]; [reflexivity|].
+    cbn [app]. destruct (r ++ [[]]) eqn:Er; [destruct r; discriminate|]. exact IH.
+Qed.
+
+Lemma kept_lines_length ls : length (kept_lines ls) = (length ls - (if ends_empty ls then 1 else 0))%nat.
+Proof.
+  pose proof (kept_lines_spec ls) as K. destruct (ends_empty ls).
+  - rewrite K at 2. rewrite app_length. cbn [length]. lia.
+  - rewrite K. lia.
+Qed.
+
+(* ... in order: the i-th stored line is made from the i-th submitted line *)
+Lemma kept_lines_nth ls i : (i < length (kept_lines ls))%nat -> nth i (kept_lines ls) [] = nth i ls [].
+Proof.
+  intros H. pose proof (kept_lines_spec ls) as K. destruct (ends_empty ls).
+  - rewrite K at 2. rewrite app_nth1 by exact H. reflexivity.
+  - rewrite K. reflexivity.
+Qed.
+
+Lemma kept_lines_Forall (P : list Z -> Prop) ls : Forall P ls -> Forall P (kept_lines ls).
+Proof.
+  intros F. pose proof (kept_lines_spec ls) as K. destruct (ends_empty ls).
+  - rewrite K in F. apply Forall_app in F. apply F.
+  - rewrite K. exact F.
+Qed.
+
+(* counting the stored lines in the file: a processed line holds exactly one line feed (its terminator) when the
+   submitted line holds none *)
+Lemma count_nl_app a b : count_nl (a ++ b) = (count_nl a + count_nl b)%nat.
+Proof. unfold count_nl. induction a as [|x a IH]; [reflexivity|]. cbn [app count_occ]. destruct (Z.eq_dec x 10); rewrite IH; reflexivity. Qed.
+
+Lemma defuse_count_nl l : forall s, count_nl (defuse s l) = count_nl l.
+Proof.
+  unfold count_nl. induction l as [|c r IH]; intros s; cbn [defuse]; [reflexivity|].
+  destruct (c =? types_ansi.ESC_CHR); [cbn [count_occ]; rewrite IH; reflexivity|].
+  destruct s; [|cbn [count_occ]; rewrite IH; reflexivity].
+  destruct (memb c PATTERN_ANSI_CODE); [cbn [count_occ]; rewrite IH; reflexivity|].
+  destruct (memb c PATTERN_ANSI_MOVECMD) eqn:E; [|cbn [count_occ]; rewrite IH; reflexivity].
+  cbn [count_occ]. rewrite IH.
+  destruct (Z.eq_dec c 10) as [->|N]; [discriminate E|].
+  destruct (Z.eq_dec 115 10); [discriminate|reflexivity].
+Qed.
+
+Lemma cprefix_In x l : In x (cprefix l) -> In x l.
+Proof.
+  induction l as [|c r IH]; cbn [cprefix]; [intros []|].
+  destruct (c =? 0); [intros []|]. intros [->|H]; [left; reflexivity|right; apply IH; exact H].
+Qed.
+
+Lemma trim_In x l : In x (trim l) -> In x l.
+Proof.
+  intros H. destruct (trim_spec l) as (k & E & _). apply cprefix_In. rewrite E. apply in_or_app. left. exact H.
+Qed.
+
+Lemma process_line_count_nl l : ~ In 10 l -> count_nl (process_line l) = 1%nat.
+Proof.
+  intros N. unfold process_line. rewrite count_nl_app, defuse_count_nl.
+  assert (Z0 : count_nl (trim l) = 0%nat).
+  { unfold count_nl. apply count_occ_not_In. intros H. apply N. apply trim_In. exact H. }
+  rewrite Z0. reflexivity.
+Qed.
+
+Lemma flat_map_count_nl ls : Forall (fun l => ~ In 10 l) ls -> count_nl (flat_map process_line ls) = length ls.
+Proof.
+  induction 1 as [|l r Hl Hr IH]; [reflexivity|].
+  cbn [flat_map length]. rewrite count_nl_app, IH, (process_line_count_nl _ Hl). reflexivity.
+Qed.
+
+(* the published file holds one processed line for every submitted line, in order, for every number of lines; only an
+   empty last line is skipped *)
+Lemma all_lines_stored role u b q u' b' o : in_range q -> post_on role u b q = Ok (u', b', o) ->
+  let ls := q_lines q in
+  lookup (cprefix (o_fn o)) (b_files b') =
+    Some (header u b (tn_safe_strip role (full_title (q_class q) (q_title q))) (q_nowH q)
+          ++ flat_map process_line (kept_lines ls) ++ signature (q_ip q) ++ url_line b (o_fn o)) /\
+  (if ends_empty ls then ls = kept_lines ls ++ [[]] else kept_lines ls = ls) /\
+  (ends_empty ls = true <-> exists ls', ls = ls' ++ [[]]) /\
+  length (kept_lines ls) = (length ls - (if ends_empty ls then 1 else 0))%nat /\
+  (forall i, (i < length (kept_lines ls))%nat -> nth i (kept_lines ls) [] = nth i ls []) /\
+  (Forall (fun l => ~ In 10 l) ls -> count_nl (flat_map process_line (kept_lines ls)) = length (kept_lines ls)).
+Proof.
+  intros R H ls. destruct (file_content _ _ _ _ _ _ _ R H) as (_ & F & _).
+  split; [rewrite <- process_lines_kept; exact F|].
+  split; [exact (kept_lines_spec ls)|]. split; [exact (ends_empty_spec ls)|]. split; [exact (kept_lines_length ls)|].
+  split; [exact (kept_lines_nth ls)|].
+  intros N. apply flat_map_count_nl. apply kept_lines_Forall. exact N.
+Qed.
+
+(* instances at the sizes the check posts: one more line than the terminal editor's MAX_EDIT_LINE (Gen/PostTab.v), and 5000 lines
+   (with and without an empty last line) — every one of them is in the file the example post publishes *)
+Definition ex_req_lines (ls : list (list Z)) : req :=
+  mkReq 2 0 [] [104;105] ls [49;50;55;46;48;46;48;46;49] 1790800000 1790800000 1790800001 1790800000 [542; 1774; 2477; 447].
+Definition ex_file_nl (ls : list (list Z)) : option nat :=
+  match post ex_state (ex_req_lines ls) with
+  | Ok (st', o) => option_map count_nl (lookup (cprefix (o_fn o)) (b_files (brd st' 0)))
+  | _ => None
+  end.
+Definition ex_lines (n : Z) : list (list Z) := map (fun i => [108; 105; 110; 101; 32] ++ print_dec i ++ [32; 32]) (zrange (Z.to_nat n)).
+
+Example ex_all_lines_stored :
+  let n := MAX_EDIT_LINE + 1 in
+  1 < n /\
+  length (kept_lines (ex_lines n)) = Z.to_nat n /\ length (kept_lines (ex_lines n ++ [[]])) = Z.to_nat n /\
+  count_nl (process_lines (ex_lines n)) = Z.to_nat n /\
+  count_nl (process_lines (ex_lines 5000 ++ [[]])) = Z.to_nat 5000 /\
+  ex_file_nl (ex_lines n) = option_map (Nat.add (Z.to_nat n)) (ex_file_nl []) /\
+  ex_file_nl (ex_lines 5000) = option_map (Nat.add (Z.to_nat 5000)) (ex_file_nl []) /\
+  ex_file_nl [] <> None.
+Proof. vm_compute. repeat split; try reflexivity. discriminate. Qed.
+
 (* ------------------------------------------------------------------ progress: two fresh names suffice *)
 Lemma post_on_succeeds role u b q r1 r2 rest :
   q_rnds q = r1 :: r2 :: rest ->
